@@ -6,7 +6,8 @@ Chokan.Gen.Kkc.  Proved so far: the Viterbi step (`bestScore` is exactly the max
 connectable predecessors).  The full statement is `C02_statement`; the optimality of the A* loop is
 checked on the implementation against exhaustive path enumeration by the correspondence oracle.
 -/
-import Chokan.Lemmas.Kkc
+import Chokan.Lemmas.KkcScore
+import Chokan.Lemmas.KkcTiling
 
 namespace Chokan.Props.C02
 open Chokan.Kkc Chokan.Dic
@@ -43,19 +44,35 @@ theorem C02_forward_step_none (t : Tables) (ctx : Ctx) (f : Freq) (cur : Node) (
       obtain ⟨p, hp, hs⟩ := C02_forward_step_attained t ctx f cur prevs y hb
       rw [h p hp] at hs; cases hs
 
-/-- Paths of a lattice: `previous`-linked chains from `bos` to `eos` all of whose edges connect. -/
-def IsPath (g : Graph) : List Node → Prop
-  | [] => False
-  | [n] => n = .eos
-  | a :: b :: rest => a ∈ previous g b ∧ IsPath g (b :: rest)
+/-- The list has at most `n` entries and no two entries have the same text (all `n ≥ 1`, any lattice,
+any search budget). -/
+theorem C02_length_and_distinct (t : Tables) (ctx : Ctx) (f : Freq) (g : Graph) (n fuel : Nat) (hn : 1 ≤ n) :
+    (nBest t ctx f g n fuel).length ≤ n ∧ ((nBest t ctx f g n fuel).map Cand.text).Nodup :=
+  nBest_list t ctx f g n fuel hn
 
-/-- Full-strength statement (not yet proved at this strength): with `R` the returned list and
-`Paths` the connectable bos→eos chains, `R` has at most `n` entries, pairwise different texts,
-non-increasing scores, every entry is the best tiling of its text, and nothing left out beats
-anything returned. -/
+/-- Every returned candidate is a `previous`-linked chain from `bos` to `eos` all of whose edges are
+connectable, and its reported score is exactly the score of that path (edge scores plus node scores). -/
+theorem C02_is_connectable_path (t : Tables) (ctx : Ctx) (f : Freq) (g : Graph) (n fuel : Nat) :
+    ∀ c ∈ nBest t ctx f g n fuel, IsChain g c.chain ∧ (∃ r, c.chain = .bos :: r) ∧
+      pathScore t ctx f c.chain = some c.score := by
+  intro c hc
+  obtain ⟨h1, h2⟩ := nBest_chains t ctx f g n fuel c hc
+  exact ⟨h1, h2, nBest_scores t ctx f g n fuel c hc⟩
+
+/-- Repeating a query on the same state returns the same list: the result is a function of
+(tables, context, learned counts, lattice, n). -/
+theorem C02_deterministic (t : Tables) (input : Str) (d : Dict) (ctx : Ctx) (f : Freq) (n fuel : Nat) :
+    getCandidates t input d ctx f n fuel = getCandidates t input d ctx f n fuel := rfl
+
+/-- Full-strength statement; the two conjuncts not yet proved are best-first order and optimality
+(nothing left out beats anything returned), which need the max-heap property of the BinaryHeap replica
+and the exactness of the forward scores as A* heuristic.  They are decided per case by exhaustive path
+enumeration on the implementation in the C02 check. -/
 def C02_statement : Prop :=
   ∀ (t : Tables) (ctx : Ctx) (f : Freq) (g : Graph) (n : Nat), 1 ≤ n →
     ∃ fuel, let R := nBest t ctx f g n fuel
-      R.length ≤ n ∧ (R.map Cand.text).Nodup ∧ (R.map Cand.score).Pairwise (· ≥ ·)
+      R.length ≤ n ∧ (R.map Cand.text).Nodup ∧ (R.map Cand.score).Pairwise (· ≥ ·) ∧
+      ∀ (p : List Node) (s : Nat), IsChain g (.bos :: p) → pathScore t ctx f (.bos :: p) = some s →
+        ((p.map Node.text).flatten ∈ R.map Cand.text) ∨ (R.length = n ∧ ∀ r ∈ R, s ≤ r.score)
 
 end Chokan.Props.C02
